@@ -11,6 +11,7 @@ LEAN = os.path.join(VERIF, "lean")
 CACHE = os.path.join(VERIF, ".cache")
 HARNESS = os.path.join(VERIF, "harness")
 EVID = os.path.join(VERIF, "evidence")
+if os.environ.get("VERIF_EVIDENCE_DIR"): EVID = os.environ["VERIF_EVIDENCE_DIR"]      # seeded-change runs (tools/seed_*.py) must not overwrite the evidence of the unchanged tree
 REPLAY = os.path.join(VERIF, "replay")
 NCPU = os.cpu_count() or 4
 
